@@ -36,8 +36,35 @@ class ConcreteCtx:
         self.counters[base] = n + 1
         return base if n == 0 else '%s!%d' % (base, n)
 
-    def get(self, name, default):
+    def get(self, name, default, n=None):
+        """value of constant `name` in the model; n: the value is an index below n"""
         return self.model.get(name, default)
+
+
+class RandomCtx(ConcreteCtx):
+    """Concrete values chosen at random (seeded): used for the CPython cross-check of the interpreter."""
+
+    def __init__(self, rnd):
+        ConcreteCtx.__init__(self, {})
+        self.rnd = rnd
+
+    def get(self, name, default, n=None):
+        if name in self.model:
+            return self.model[name]
+        r = self.rnd
+        if n is not None:
+            v = r.randrange(n)
+        elif isinstance(default, bool):
+            v = r.random() < 0.5
+        elif isinstance(default, int):
+            v = r.choice([-2, -1, 0, 1, 2, 3, 5, 10]) if default == 0 else default + r.choice([0, 1, 2, 7])
+        elif isinstance(default, str):
+            v = ''.join(r.choice(['a', 'b', ' ', '\n', '@', '[', ']', "'", '"', '#', 'é'])
+                        for _ in range(r.randrange(0, 6)))
+        else:
+            v = default
+        self.model[name] = v
+        return v
 
 
 class Ty:
@@ -142,7 +169,7 @@ class OneOf(Ty):
     def concrete(self, cx, name):
         if len(self.values) == 1:
             return self.values[0]
-        return self.values[cx.get(cx.fresh_name(name + '.idx'), 0)]
+        return self.values[cx.get(cx.fresh_name(name + '.idx'), 0, len(self.values))]
 
 
 def EnumOf(cls, *extra):
@@ -162,7 +189,7 @@ class Union(Ty):
         return self.alts[i].make(interp, name)
 
     def concrete(self, cx, name):
-        i = cx.get(cx.fresh_name(name + '.alt'), 0)
+        i = cx.get(cx.fresh_name(name + '.alt'), 0, len(self.alts))
         return self.alts[i].concrete(cx, name)
 
 
@@ -251,6 +278,63 @@ class ListOf(Ty):
 
         return SList(n, elem, uid)
 
+    def concrete(self, cx, name):
+        n = cx.get(cx.fresh_name(name + '.len'), self.min_len, None)
+        if isinstance(cx, RandomCtx):
+            n = self.min_len + abs(n) % 4
+        n = max(self.min_len, min(int(n), 6))
+        return [self.elem.concrete(cx, '%s[%d]' % (name, i)) for i in range(n)]
+
+
+class MListOf(Ty):
+    """A *mutable* list of symbolic length whose elements are ints / bools / strings or tuples of these
+    (pyvc.mlist.MList): results accumulated in loops, out-parameters.  In `M.loop(... modifies=...)` the
+    list is havocked in place."""
+
+    def __init__(self, elem):
+        self.elem = elem
+
+    def shape(self):
+        return _mshape(self.elem)
+
+    def make(self, interp, name):
+        from .mlist import MList
+        m = MList(interp, interp.st.fresh_name(name), self.shape())
+        n = interp.st.fresh_int(name + '.len')
+        interp.st.assume(n >= 0)
+        m.length = n
+        return m
+
+    def concrete(self, cx, name):
+        return ListOf(self.elem).concrete(cx, name)
+
+
+def _mshape(ty):
+    if isinstance(ty, FixedList):
+        return ('tuple', tuple(_mshape(t) for t in ty.elems))
+    if isinstance(ty, _Int):
+        return ('int',)
+    if isinstance(ty, _Bool):
+        return ('bool',)
+    if isinstance(ty, _Str):
+        return ('str',)
+    raise Unsupported('MListOf element type %r' % (ty,))
+
+
+class IterOf(Ty):
+    """An iterator over a sequence of symbolic length (e.g. the lines of a file), positioned at its start.
+    In clauses: `it.xs` is the underlying sequence, `it.pos` the number of items consumed so far."""
+
+    def __init__(self, elem):
+        self.elem = elem
+
+    def make(self, interp, name):
+        from .models import SIter
+        return SIter(ListOf(self.elem).make(interp, name), 0)
+
+    def concrete(self, cx, name):
+        return iter(ListOf(self.elem).concrete(cx, name))
+
 
 class FixedList(Ty):
     def __init__(self, *elems, as_tuple=False):
@@ -272,16 +356,33 @@ class Opaq(Ty):
     def make(self, interp, name):
         return OpaqueVal(interp.st.fresh_name(name))
 
+    def concrete(self, cx, name):
+        return _Anything(cx.fresh_name(name))
+
+
+class _Anything:
+    def __init__(self, name):
+        self.name = name
+
+    def __repr__(self):
+        return '<any %s>' % self.name
+
 
 Any_ = Opaq()
 
 
 class Custom(Ty):
-    def __init__(self, fn):
+    def __init__(self, fn, concrete=None):
         self.fn = fn
+        self.concrete_fn = concrete
 
     def make(self, interp, name):
         return self.fn(interp, name)
+
+    def concrete(self, cx, name):
+        if self.concrete_fn is None:
+            raise NoConcrete('Custom shape without a concrete reconstruction')
+        return self.concrete_fn(cx, name)
 
 
 def make_indexed(interp, ty, uid, idx_term):
@@ -307,6 +408,14 @@ def make_indexed(interp, ty, uid, idx_term):
         return new_opaque(interp, iface, uid + '[]', index=(idx_term,))
     if isinstance(ty, Opaq):
         return OpaqueVal('%s[%s]' % (uid, z3.simplify(idx_term)))
+    if isinstance(ty, FixedList):
+        vals = [make_indexed(interp, t, '%s.%d' % (uid, i), idx_term) for i, t in enumerate(ty.elems)]
+        return tuple(vals) if ty.as_tuple else vals
+    if isinstance(ty, Opt):
+        f = z3.Function(uid + '[].is_none', z3.IntSort(), z3.BoolSort())
+        return SOpt(f(idx_term), make_indexed(interp, ty.inner, uid, idx_term))
+    if isinstance(ty, Const):
+        return ty.value
     raise Unsupported('indexed element of type %r' % (ty,))
 
 
@@ -396,7 +505,7 @@ def _indexed_scalar(interp, o, name, ty):
     idx = o._pv_index
     st = interp.st
     base = '%s.%s' % (o._pv_uid, name)
-    sorts = [z3.IntSort()] * len(idx)
+    sorts = [x.sort() for x in idx]
     if isinstance(ty, _Int):
         t = z3.Function(base, *(sorts + [z3.IntSort()]))(*idx)
         if ty.lo is not None:
@@ -622,18 +731,31 @@ def call_opaque_method(interp, o, name, m, args, kwargs):
                 st.emit(m.event + ':raised', o, exc)
             raise PyRaise(exc)
     if m.pure:
+        flat = []
+        for a in args:
+            if isinstance(a, tuple) and all(isinstance(x, (SInt, SBool, SStr, int, str, bool)) for x in a):
+                flat.extend(a)
+            else:
+                flat.append(a)
+        args = flat
         key = ('__call__', name, tuple(z3.simplify(to_z3(a)).sexpr() if isinstance(a, (Sym, int, str, bool))
                                         and not isinstance(a, (SOpt, SChoice, SList)) else id(a) for a in args))
         if key in o._pv_attrs:
             return o._pv_attrs[key]
         if all(isinstance(a, (SInt, SBool, SStr, int, str, bool)) for a in args) and \
                 isinstance(m.returns, (_Int, _Bool, _Str)):
-            sorts = [z3.IntSort()] * len(o._pv_index) + [to_z3(a).sort() for a in args]
+            sorts = [x.sort() for x in o._pv_index] + [to_z3(a).sort() for a in args]
             rs = {_Int: z3.IntSort(), _Bool: z3.BoolSort(), _Str: z3.StringSort()}[type(m.returns)]
             f = z3.Function('%s.%s()' % (o._pv_uid, name), *(sorts + [rs]))
             r = wrap(f(*(list(o._pv_index) + [to_z3(a) for a in args])))
             if isinstance(r, SInt) and m.returns.lo is not None:
                 st.assume(r.t >= m.returns.lo)
+        elif all(isinstance(a, (SInt, SBool, SStr, int, str, bool)) for a in args) and isinstance(m.returns, Iface):
+            # structured result of a pure method: an opaque object indexed by (object index, arguments),
+            # i.e. its attributes are functions of the arguments
+            iface = m.returns.iface() if isinstance(m.returns.iface, types.FunctionType) else m.returns.iface
+            r = new_opaque(interp, iface, '%s.%s()' % (o._pv_uid, name),
+                           index=tuple(o._pv_index) + tuple(to_z3(a) for a in args))
         else:
             r = m.returns.make(interp, '%s.%s()' % (o._pv_uid, name)) if m.returns is not None else None
         o._pv_attrs[key] = r
@@ -652,7 +774,7 @@ class Contract:
     def __init__(self, qname, params=None, ghosts=None, requires=None, returns=None, ensures=None,
                  raises=None, may_raise=(), raises_only=None, modifies=None, props=(), setup=None,
                  old=None, pure_result=False, notes='', concretize=None, replay=None, trusted=False,
-                 cover=True, inline=False, event=None):
+                 cover=True, inline=False, event=None, yields=None):
         self.qname = qname
         self.params = params or {}
         self.ghosts = ghosts or {}
@@ -670,6 +792,7 @@ class Contract:
         self.replay = replay
         self.trusted = trusted              # True: assumed contract (not verified); listed in evidence
         self.cover = cover
+        self.yields = yields                # generator functions: shape of the items (ListOf(...)) for call sites
         self.event = event                  # ghost event emitted at call sites that use the contract
         self.inline = inline                # verified, but call sites interpret the body (tiny helpers)
         self.func = None
